@@ -1,8 +1,36 @@
-(* C03 — Tree-builder event interface. Property theorems only. *)
-From Coq Require Import List Arith Bool.
-From BS Require Import Base.Sexp Model.Heap Model.Edit Model.Build Proofs.HeapBasics.
+(* C03 — Tree-builder event interface: any event sequence yields the specified tree.
+   Property theorems only.  Table obligations are over coq/Gen/Tables.v, regenerated from /repo on
+   every run. *)
+From Coq Require Import List NArith Arith Bool String.
+From BS Require Import Base.Sexp Base.Types Base.Lit Model.Heap Model.Edit Model.Build Spec.BuildSpec Gen.Tables.
 Import ListNotations.
+Open Scope N_scope.
 
-Theorem C03_placeholder_upd : forall h x c, upd h x c x = c.
-Proof. exact upd_same. Qed.
-Print Assumptions C03_placeholder_upd.
+(* ---- tables the construction rules mention ---- *)
+
+(* "whitespace-only text": ASCII whitespace is exactly space, newline, tab, form feed, carriage return *)
+Theorem C03_ascii_spaces_table : forall c,
+  memN c ascii_spaces = true <-> (c = 32 \/ c = 10 \/ c = 9 \/ c = 12 \/ c = 13).
+Proof.
+  intros c. unfold ascii_spaces, memN. cbn [existsb]. rewrite !orb_true_iff, !N.eqb_eq. intuition congruence.
+Qed.
+Print Assumptions C03_ascii_spaces_table.
+
+(* "whitespace-preserving elements" of the HTML configuration: pre and textarea *)
+Theorem C03_preserve_whitespace_table :
+  default_preserve_whitespace_tags = [lit "pre"; lit "textarea"].
+Proof. reflexivity. Qed.
+Print Assumptions C03_preserve_whitespace_table.
+
+(* "special containers (script, style, template, rt, rp)" and their string classes
+   (7 Stylesheet, 8 Script, 9 TemplateString, 10 RubyTextString, 11 RubyParenthesisString) *)
+Theorem C03_string_containers_table :
+  default_string_containers =
+  [(lit "rp", 11); (lit "rt", 10); (lit "script", 8); (lit "style", 7); (lit "template", 9)].
+Proof. reflexivity. Qed.
+Print Assumptions C03_string_containers_table.
+
+(* the root element's name can never be closed by an end tag *)
+Theorem C03_root_name : root_tag_name = lit "[document]".
+Proof. reflexivity. Qed.
+Print Assumptions C03_root_name.
